@@ -222,7 +222,8 @@ def cigarAtoi (ds : Bytes) : Option Nat :=
   if 13 < ds.length then none else some (ds.foldl (fun n d => n * 10 + (d.toNat - 48)) 0)
 
 /-- the emission loop `for { c = append(c, NewCigarOp(op, min(n, 1<<28-1))); n -= 1<<28-1; if n <= 0 {break} }`
-in closed form: the operations and the value `n` is left with; `none` = NewCigarOp panics (n < 0) -/
+in closed form: the operations and the value `n` is left with; `none` = NewCigarOp panics (n < 0,
+which ParseCigar never passes: `n` comes from `atoi`) -/
 def emitOps (op : Nat) (n : Int) : Option (List CigarOp × Int) :=
   if n < 0 then none
   else
@@ -230,20 +231,12 @@ def emitOps (op : Nat) (n : Int) : Option (List CigarOp × Int) :=
     let k := if m = 0 then 1 else (m + maxOpLen - 1) / maxOpLen
     some ((List.range k).map (fun i => ⟨op, min (m - i * maxOpLen) maxOpLen⟩), n - (k * maxOpLen : Nat))
 
-/-- iterations of ParseCigar's outer loop that start inside a trailing run of digits: `op` and `n`
-keep their previous values, one iteration per digit -/
-def cigarTrailing : Nat → Nat → Int → Except Fault (List CigarOp)
-  | 0, _, _ => .ok []
-  | k + 1, op, n =>
-    if op = 10 then .error .err
-    else match emitOps op n with
-      | none => .error .panic
-      | some (ops, n') => (cigarTrailing k op n').map (ops ++ ·)
-
 /-- ParseCigar's loops; `cur` = digits read since the last operation letter, `op`/`n` = the variables
-of the Go function (they survive from one operation to the next) -/
+of the Go function (set at every operation letter).  A run of digits that reaches the end of the
+text without an operation letter is an error (repair C11: it used to re-emit the previous operation
+with the already decremented `n`, which made NewCigarOp panic). -/
 def parseCigarLoop : Bytes → Bytes → Nat → Int → Except Fault (List CigarOp)
-  | [], cur, op, n => cigarTrailing cur.length op n
+  | [], cur, _, _ => if cur.isEmpty then .ok [] else .error .err
   | c :: rest, cur, op, n =>
     if isDec c then parseCigarLoop rest (cur ++ [c]) op n
     else match cigarAtoi cur with
